@@ -194,6 +194,65 @@ func init() {
 		if nk != 1 {
 			c.Fail("C19e/PunishUnresponsiveProviders/one-worklist", c.P.Pos(pun.Pos()), "expected exactly one work-list append, found "+itoa(nk))
 		}
+		c.Rule("C19f windows and escalation memory: the call to countCuForUnresponsiveness passes each window under the parameter of the same name (the two uint64 windows cannot be told apart by type); StakeEntry.Jails and JailEndTime are cleared only in punishUnresponsiveProvider (old jail) and in UnfreezeProvider past IsFrozen() of that entry — a soft-jailed, never frozen entry keeps its jail count")
+		for _, s := range c.CallsByName(pun, false, pk+"Keeper.countCuForUnresponsiveness") {
+			call := ir.CallOf(s.Instr)
+			callee := call.StaticCallee()
+			if callee == nil {
+				c.Undecided("C19f: countCuForUnresponsiveness call is not static")
+				continue
+			}
+			calleeNames := map[string]int{}
+			for i, p := range callee.Params {
+				calleeNames[p.Name()] = i
+			}
+			n, bad := 0, ""
+			for i, a := range call.Args {
+				p, ok := a.(*ssa.Parameter)
+				if !ok || i >= len(callee.Params) {
+					continue
+				}
+				// a caller parameter forwarded under a name the callee also uses must land on that parameter
+				if j, same := calleeNames[p.Name()]; same {
+					n++
+					if j != i {
+						bad = "caller's " + p.Name() + " is passed as the callee's " + callee.Params[i].Name()
+					}
+				}
+			}
+			if bad != "" {
+				c.Fail("C19f/PunishUnresponsiveProviders/windows-passed-under-their-own-names", c.P.InstrPos(s.Instr), bad+": the complaint window and the serviced-CU window are swapped")
+			} else if n >= 2 {
+				c.OK("C19f/PunishUnresponsiveProviders/windows-passed-under-their-own-names", c.P.InstrPos(s.Instr), itoa(n)+" same-named parameters forwarded positionally correct")
+			} else {
+				c.Undecided("C19f: fewer than two same-named parameters are forwarded to countCuForUnresponsiveness (%d)", n)
+			}
+		}
+		for _, fld := range []string{"Jails", "JailEndTime"} {
+			for _, a := range c.fieldAccesses("x/epochstorage/types.StakeEntry." + fld) {
+				if a.Kind != "write" || !inProd(a.Fn) || strings.Contains(c.P.InstrPos(a.Instr), ".pb.go") {
+					continue
+				}
+				st, ok := a.Instr.(*ssa.Store)
+				if !ok || !isZeroConst(st.Val) {
+					continue
+				}
+				fn := topName(a.Fn)
+				key := "C19f/StakeEntry." + fld + "/cleared-in=" + fn
+				switch fn {
+				case pk + "Keeper.punishUnresponsiveProvider":
+					c.OK(key, c.P.InstrPos(st), "reset of an old jail before counting the new one")
+				case pk + "msgServer.UnfreezeProvider":
+					if ir.HasFact(ir.GuardFacts(st), "call(x/epochstorage/types.StakeEntry.IsFrozen)(") && !ir.HasFact(ir.GuardFacts(st), "!call(x/epochstorage/types.StakeEntry.IsFrozen)(") {
+						c.OK(key, c.P.InstrPos(st), "only for an entry that was frozen and is being unfrozen")
+					} else {
+						c.Fail(key, c.P.InstrPos(st), "the jail record of an entry that is not frozen is cleared: a soft-jailed provider erases its jail count and never escalates to a hard jail")
+					}
+				default:
+					c.Fail(key, c.P.InstrPos(st), "StakeEntry."+fld+" is cleared in "+fn)
+				}
+			}
+		}
 		c.NotCovered("window lengths, escalation timing, the stake-history comparison's epoch arithmetic")
 	})
 }
